@@ -325,7 +325,25 @@ def run(ctx):
                                                 "what": "a file set that must be refused (%s) is accepted or leaves output behind: %s build, %s, exit %s, files %s" % (
                                                     tag_, bname, tagb, rc_, sorted(snap_)[:3])})
                         break
+    # an output that cannot be written (a full device): never exit status 0, for small and for large outputs,
+    # in both builds
+    unwritable = 0
+    if not ctx.get("replay") and os.path.exists("/dev/full"):
+        small = os.path.join(work, "unwritable_small.idl")
+        large = os.path.join(work, "unwritable_large.idl")
+        open(small, "w").write("interface ISmall { method f(in uint32 x); };\n")
+        open(large, "w").write("interface ILarge {\n%s};\n" % "".join("  method m%d(in uint32 a, out uint64 b, in buffer c);\n" % i for i in range(120)))
+        for bname, binp in (("debug", ctx["idlc"]), ("release", rel)):
+            for src_ in (small, large):
+                for lang_, skel_ in (("c", False), ("c", True), ("cpp", False), ("cpp", True)):
+                    r_ = scrape.idlc_run(binp, src_, "/dev/full", lang_, skel_)
+                    unwritable += 1
+                    if r_[0] == 0:
+                        res["failures"].append({"property": prop, "tag": "unwritable-output", "build": bname, "backend": lang_ + ("_skel" if skel_ else ""),
+                                                "input": open(src_).read()[:300], "command": "idlc %s -o /dev/full%s%s" % (os.path.basename(src_), "" if lang_ == "c" else " --" + lang_, " --skel" if skel_ else ""),
+                                                "what": "exit status 0 although nothing could be written to the output (/dev/full: every write fails with ENOSPC)"})
     res["coverage"] = {
+        "unwritable_output_runs": unwritable,
         "must_refuse_sets": [t for t, _ in refuse_sets],
         "filesets_all_backends_debug_vs_release": {"sets": nsets, "differing": set_diffs},
         "evaluations": len(inputs), "distinct_nontrivial": distinct,
